@@ -8,6 +8,7 @@
 package roconc
 
 import (
+	"strings"
 	"bytes"
 	"encoding/hex"
 	"fmt"
@@ -17,6 +18,7 @@ import (
 	"github.com/onflow/crypto/simrt"
 
 	"verifsim/choice"
+	"verifsim/racelog"
 	"verifsim/engine"
 )
 
@@ -516,7 +518,33 @@ func (Engine) Run(c *choice.Src, o engine.Opt) (out engine.Out) {
 		})
 	}
 	sim := simrt.New(func(n int, label string) int { return c.Choose(n, label) }, fns...)
+	racelog.Mark()
 	panics := sim.Run()
+	if nrep, text := racelog.Since(); nrep > 0 {
+		// a report of the Go race detector during THIS run (the worker runs with halt_on_error=0
+		// and without duplicate suppression, see package racelog)
+		cw := ""
+		if sim.CWSite != 0 {
+			cw = fmt.Sprintf("C call at Go line %d modifies a Go object of %d bytes that the C call at Go line %d uses concurrently", sim.CWSite, sim.CWBytes, sim.CWOther)
+		}
+		d := racelog.Classify(text, cw)
+		for ti := range plans {
+			ev("task %d runs %v", ti, plans[ti])
+		}
+		for _, sw := range sim.Trace {
+			ev("switch to task %d (previous task was at line %d, budget %d)", sw.Task, sw.Site, sw.Budget)
+		}
+		viol("race", "race:"+d, "%s (%d report(s) in this run)", d, nrep)
+		if o.Trace {
+			lines := strings.Split(text, "\n")
+			if len(lines) > 70 {
+				lines = lines[:70]
+			}
+			trace = append(trace, lines...)
+		}
+		out.Nontrivial = true
+		return
+	}
 	out.SimTime["scheduler_steps"] += sim.Steps
 	out.SimTime["context_switches"] += sim.Switches
 	out.SimTime["go_objects_handed_to_C_and_reported_to_race_detector"] += sim.CArgs
